@@ -16,7 +16,7 @@
 (*               (ExprNodes.py), __Pyx_crop_slice + FromArray,               *)
 (*               __Pyx_PyUnicode_Substring, __Pyx_PyObject_{Get,Set}Slice.   *)
 (* Py_ssize_t is scaled to 8 bits (SMIN..SMAX), so that type bounds are      *)
-(* ordinary values and C signed overflow is a reachable, flagged outcome.    *)
+(* ordinary values and C signed overflow would be a flagged outcome (NoUB).  *)
 (* A container of length n holds the element ids 0..n-1 (n = -1: the         *)
 (* variable holds None); new elements have ids 10,11,12 (printed N,M,K).     *)
 (* Outcomes are strings: "=3" (item), ":0N2" (resulting sequence / mutated   *)
@@ -236,14 +236,17 @@ CBound(b, dflt) ==
 ErrOut(x) == IF x = ERRT THEN [o |-> ET, hz |-> "none"] ELSE [o |-> EO, hz |-> "bound_overflow"]
 
 Copy(n, s1, len) == IF s1 < 0 \/ s1 + len > n THEN "?oob_read" ELSE SeqOut([k \in 1..len |-> s1 + k - 1])
-CropStart(n, s) == IF s < 0 THEN (IF s + n < 0 THEN 0 ELSE s + n) ELSE s
-CropStop(n, e) == IF e < 0 THEN e + n ELSE IF e > n THEN n ELSE e
+\* __Pyx_crop_slice: both bounds are clamped into [0, length] before the subtraction (as PySlice_AdjustIndices does)
+CropBound(n, x) == IF x < 0 THEN (IF x + n < 0 THEN 0 ELSE x + n) ELSE IF x > n THEN n ELSE x
 ListGetSlice(n, s, e) ==       \* __Pyx_crop_slice + __Pyx_PyList_GetSlice_locked / __Pyx_PyTuple_GetSlice + FromArray
-  LET s1 == CropStart(n, s) e1 == CropStop(n, e) len == e1 - s1 IN
-  IF ~InSsize(len) THEN UB("crop_slice_sub_overflow")
-  ELSE IF len <= 0 THEN Ok(":") ELSE Ok(Copy(n, s1, len))
-Substring(n, s, e) ==          \* __Pyx_PyUnicode_Substring
-  LET s1 == CropStart(n, s) e1 == CropStop(n, e) IN
+  LET s1 == CropBound(n, s) e1 == CropBound(n, e) len == e1 - s1 IN
+  IF ~InSsize(len) THEN UB("crop_slice_sub_overflow")                  \* every C subtraction is range-checked: see NoUB
+  ELSE IF len <= 0 THEN Ok(":") ELSE Ok(Copy(n, s1, len))              \* tuple: FromArray(n <= 0) ; list: `length <= 0`
+\* __Pyx_PyUnicode_Substring has its own cropping: start is clamped below only, stop above only, then `stop <= start`
+SubStart(n, s) == IF s < 0 THEN (IF s + n < 0 THEN 0 ELSE s + n) ELSE s
+SubStop(n, e) == IF e < 0 THEN e + n ELSE IF e > n THEN n ELSE e
+Substring(n, s, e) ==
+  LET s1 == SubStart(n, s) e1 == SubStop(n, e) IN
   IF e1 <= s1 THEN Ok(":") ELSE IF s1 = 0 /\ e1 = n THEN Ok(SeqOut(Orig(n))) ELSE Ok(Copy(n, s1, e1 - s1))
 
 ImplSlice(c, op, m, n, sb, eb, r) ==   \* r: the reference outcome (what CPython does with the same slice object)
@@ -338,22 +341,26 @@ Leaf == cse.lvl = 2
 Keys == DOMAIN row
 \* the property on the model: the generated code computes what Python computes ...
 ImplAgrees == \A k \in Keys : row[k][1] = row[k][2]
-\* ... which the model refutes (SeqIndex_strict.cfg); everywhere else:
+\* ... which the model refutes (SeqIndex_strict.cfg: object bounds outside Py_ssize_t; SeqIndex_strict_x.cfg: the type test
+\* of extended-slice assignment); everywhere else:
 Deviates(k) == row[k][3] \in {"ub", "bound_overflow", "rhs_type"}
 ImplAgreesOffHazards == \A k \in Keys : Deviates(k) \/ row[k][1] = row[k][2]
-\* the deviations are confined to slicing of builtin-typed variables:
-\*   C undefined behaviour only in __Pyx_crop_slice (list/tuple, reading), when start exceeds the length and stop is far below zero;
-\*   OverflowError only for object bounds outside Py_ssize_t
+\* the deviations are confined to builtin-typed variables: OverflowError only for object slice bounds outside Py_ssize_t,
+\* the type test only for extended-slice assignment of another iterable
 HazardsConfined == \A k \in Keys : Deviates(k) =>
    /\ cse.c.decl = "typed"
-   /\ (Part = "slice" /\ row[k][3] # "rhs_type") \/ (Part = "xslice" /\ row[k][3] = "rhs_type" /\ cse.op = "set" /\ cse.rhs = "other")
-   /\ (row[k][3] = "ub" => (cse.op = "get" /\ cse.c.kind \in {"list", "tuple"} /\ row[k][2] = "?crop_slice_sub_overflow"))
+   /\ row[k][3] # "ub"
+   /\ (Part = "slice" /\ row[k][3] = "bound_overflow") \/ (Part = "xslice" /\ row[k][3] = "rhs_type" /\ cse.op = "set" /\ cse.rhs = "other")
    /\ (row[k][3] = "bound_overflow" => \E b \in {cse.sb, k} : BForm(b) = "oint" /\ ~InSsize(BVal(b)))
-\* exactly when: start beyond the length and stop so far below zero that `stop + length - start` leaves Py_ssize_t
-HazardExact ==
+\* __Pyx_crop_slice delivers a window inside the array for every pair of Py_ssize_t bounds, the type extremes included
+CropClamped ==
   (Leaf /\ Part = "slice" /\ cse.c.decl = "typed" /\ cse.op = "get" /\ cse.c.kind \in {"list", "tuple"} /\ cse.n >= 0) =>
     \A k \in Keys : LET s == CBound(cse.sb, 0) e == CBound(k, SMAX) IN
-       (s < 30000 /\ e < 30000) => ((row[k][3] = "ub") <=> (e < 0 /\ s > cse.n /\ e - SMIN < s - cse.n))
+       (s < 30000 /\ e < 30000) =>
+          LET s1 == CropBound(cse.n, s) e1 == CropBound(cse.n, e) IN
+          /\ s1 >= 0 /\ s1 <= cse.n /\ e1 >= 0 /\ e1 <= cse.n /\ InSsize(e1 - s1)
+          /\ (e1 - s1 > 0) => (s1 + (e1 - s1) <= cse.n)
+\* C undefined behaviour (signed overflow, access outside the array) is unreachable in every part
 NoUB == \A k \in Keys : row[k][3] # "ub"
 
 \* the macros mean what their names say (full ranges of the modelled types)
